@@ -360,6 +360,18 @@ theorem callOK_wstep (c : Caller) (s : St) (op : WOp) : callOK c op (wstep c s o
     obtain ⟨h3, _⟩ := guarded_ok h
     simp only [callOK, Bool.and_eq_true]
     exact ⟨⟨authorize_ok h1, authorize_ok h2⟩, verifyPermissions_ok h3⟩
+  | ca2 a =>
+    have hk : DenSafe s (if a.perms.any (fun p => p.Resource.Type_ = InstanceResourceType) then (s, .error (.base .int))
+        else createAuthSvc s a) := by
+      split
+      · intro e h hd; simp at h; subst h; cases hd
+      · exact createAuthSvc_den s a
+    refine callOK_mut c _ s (createAuth2 c s a) _ (guarded_den (guarded_den (guarded_den hk))) (fun i h => ?_)
+    obtain ⟨h1, h⟩ := guarded_ok h
+    obtain ⟨h2, h⟩ := guarded_ok h
+    obtain ⟨h3, _⟩ := guarded_ok h
+    simp only [callOK, Bool.and_eq_true]
+    exact ⟨⟨authorize_ok h1, authorize_ok h2⟩, verifyPermissions_ok h3⟩
   | ua id act =>
     refine callOK_mut c _ s (updateAuth c s id act) _ (fetchGuard_den (updateAuthSvc_den s id act)) (fun i h => ?_)
     obtain ⟨a, ha, hg, _⟩ := fetchGuard_ok h
